@@ -282,8 +282,8 @@ template<class T> struct Driver {
     if (restored[i]) e.b("restored", true);
     e.emit();
   }
-  void deser(int b, int j) {
-    bool stream = g.chance(50); long long consumed;
+  void deser(int b, int j, int path = -1) {      // path: 0 bytes, 1 stream, -1 drawn
+    bool stream = path < 0 ? g.chance(50) : path == 1; long long consumed;
     if (stream) {
       std::string in((const char*)blob[b].data(), blob[b].size()); in += std::string(16, '\x5a');
       std::istringstream is(in);
@@ -403,6 +403,44 @@ template<class T> struct Driver {
   // insert purges with every key sitting in its home slot: "light keys in the last quarter of the slots, light and heavy
   // keys half and half in the first three quarters" and the mirror image, heavy weight large enough that a purge taking a
   // heavy counter as its median would exceed epsilon * total weight.
+  // DIRECTED (present in every run): restore-then-continue at the edge states.  For every edge state - never updated; only
+  // zero-weight updates; exactly one item; map emptied by a purge (total weight and offset > 0, no rows) - and for both restore
+  // paths (bytes, stream): serialize (bytes with a header and stream forms), restore, then continue original and restored in
+  // lock-step with the same updates (through resizes and purges) and merges, and use the restored sketch as a merge operand.
+  void edge_segment(long seg) {
+    Ev("Begin").i("seg", seg).str("type", Codec<T>::name()).b("edge", true).emit();
+    rev.clear();
+    for (int i = 0; i < NS; i++) { sk[i].reset(); prev[i].clear(); ver[i] = 0; restored[i] = false; }
+    for (int b = 0; b < NB; b++) blive[b] = false;
+    twin_a = twin_b = -1; twin_left = 0; profile = 1; bigseg = false; U = 40;
+    for (int state = 0; state < 4; state++) for (int path = 0; path < 2; path++) {
+      // lg_cur (3) below lg_max for the first three states: the restored sketch must keep BOTH and resize / purge like the original
+      int lg = state == 3 ? 3 : 4 + (state + path) % 2;
+      mk(0, lg, 3);
+      if (state == 1) { do_update(0, g.range(1, U), 0, false); do_update(0, g.range(1, U), 0, true); }
+      if (state == 2) do_update(0, g.range(1, U), g.chance(50) ? 1 : g.range(1, 1000), g.chance(50));
+      if (state == 3) for (long x = 1; x <= 7; x++) do_update(0, x, 1, false);      // the 7th insert purges everything
+      obs(0);
+      int b = (int)g.below(NB);
+      ser(0, b); deser(b, 1, path);
+      twin_a = 0; twin_b = 1; twin_left = 1000; twin_obs();
+      obs(1);
+      mk(2, (int)g.range(3, 5));
+      for (int k = 0; k < 6; k++) do_update(2, g.range(1, U), g.range(1, 20), false);
+      for (int k = 0; k < 30; k++) {
+        if (k == 4 || k == 18) { do_merge(0, 2, false); do_merge(1, 2, false); twin_obs(); continue; }
+        if (k == 10) { ser(1, (b + 1) % NB); obs(0); obs(1); continue; }          // the restored object serializes like the original
+        long x = g.range(1, U), w = g.chance(5) ? 0 : g.range(1, 9); bool rv = g.chance(30);
+        do_update(0, x, w, rv); do_update(1, x, w, rv); twin_obs();
+      }
+      obs(0); obs(1);
+      twin_left = 0; twin_a = twin_b = -1;
+      // the restored sketch as a merge operand (lvalue and rvalue), into a sketch that saw other items
+      mk(3, (int)g.range(3, 5));
+      for (int k = 0; k < 5; k++) do_update(3, g.range(1, U), g.range(1, 20), false);
+      do_merge(3, 1, path == 1); obs(3);
+    }
+  }
   void slot_segment(long seg) {
     Ev("Begin").i("seg", seg).str("type", Codec<T>::name()).b("slots", true).emit();
     rev.clear();
@@ -506,6 +544,10 @@ int main(int argc, char** argv) {
       if (k % 2 == 0) replay_file<int64_t>(g, std::string(rdir) + "/" + files[k], (long)k); else replay_file<std::string>(g, std::string(rdir) + "/" + files[k], (long)k);
     }
     segments = 0;
+  }
+  if (!rdir && wide == 0 && vt::argl(argc, argv, "--edge", 1)) {      // own generator: the random segments keep their streams
+    vt::Rng ge(seed ^ 0xED6EULL);
+    if (seed % 2 == 0) { Driver<int64_t> d(ge, serde_pct); d.edge_segment(900); } else { Driver<std::string> d(ge, serde_pct); d.edge_segment(900); }
   }
   for (long seg = 0; seg < segments; seg++) {
     bool b = seg < big;
